@@ -33,7 +33,7 @@ def parse_line(l):
     return d
 
 
-def proto_run(rep, prop, tier, bdir, cases, oracle, drivers=("proto",), label="proto"):
+def proto_run(rep, prop, tier, bdir, cases, oracle, model_driver="proto", label="proto"):
     """run cases on the implementation (wb_proto) and on the models (modeld_proto); apply the
     property's spec oracle to the implementation's observations; report divergences."""
     impl, err = wb_build(bdir, "wb_proto.c")
@@ -41,7 +41,7 @@ def proto_run(rep, prop, tier, bdir, cases, oracle, drivers=("proto",), label="p
         p = rep.replay_file("wb_proto_build.txt", err)
         rep.violation(p, "protocol driver does not build against the current tree (correspondence broken)", nofail=True)
         return
-    model = model_bin("modeld_proto")
+    model = model_bin("modeld_" + model_driver)
     diverged = []
     hist = rep.cov.setdefault("op_histogram", {})
     distinct = set()
